@@ -168,7 +168,7 @@ def jobs(tier):
     else:
         mixm = [(True, False, 2, "mix"), (True, False, 1, "mix")]
         plan = [
-            (("send", "send"), 1, 7, mixm, False), (("send", "resend"), 1, 7, mixm, False), (("send", "send", "send"), 1, 3, mixm, False),
+            (("send", "send"), 1, 7, mixm, False), (("send", "resend"), 1, 7, mixm, False), (("send", "send", "send"), 1, 1, mixm, False), (("send", "send", "send"), 0, 3, mixm, False),
             (("sendlist", "send"), 0, 3, mixm, False), (("send", "resend", "send"), 0, 3, mixm, False),
             (("send",), 3, 15, modes, False), (("send",), 3, 7, modes, True),
             (("send", "send"), 3, 7, modes, False), (("send", "send"), 1, 15, modes, False),
@@ -188,7 +188,7 @@ def jobs(tier):
                            dict(hist=list(hist), fr_max=fr_max, arc_max=arc_max, aa0=aa0, ask=ask, ackpl=ackpl,
                                 send_only=so, ard="sym" if sym_ard else ards[n % 3], **({"ackpl_opt": True} if so == "mix" else {})),
                            cost=(fr_max + 1) * arc_max * len(hist) ** 2 * (0.1 if (ask or not aa0) else 1)
-                           * (8 if sym_ard else 1)))
+                           * (8 if sym_ard else 1), shards=((8 if tier == "thorough" else 4) if len(hist) >= 3 and so == "mix" else 1)))
     for hist, (aa0, ask, ackpl, so) in ((("send", "resend"), (True, True, 0, False)), (("sendlist",), (True, True, 0, False)),
                                         (("send", "send"), (True, False, 0, False)), (("send", "resend"), (False, False, 0, False))):
         out.append(Job("send-resend-history-static-payloads", h_history,
